@@ -57,7 +57,7 @@ def inspect(paths, run, o):
     return out
 
 
-def make_job(jid, n, i, line, nrec, method, scans, kind="expr"):
+def make_job(jid, n, i, line, nrec, method, scans, kind="expr", next_method="collect_paths"):
     """kind expr: the abort is an error inside a match component under validation-mode raise; kind limit: an exception raised
     outside the match components (the collect() function names a header that record [line] does not have)"""
     members = []
@@ -72,8 +72,8 @@ def make_job(jid, n, i, line, nrec, method, scans, kind="expr"):
     ids = [f"m{k}" for k in range(n)]
     return {"id": jid, "files": {"f": rows}, "groups": {"g": members, "ok": ['~id: m0~ $[*][ yes() ]', '~id: m1~ $[1*][ @c = count() ]']},
             "runs": [{"method": method, "pathsname": "g", "filename": "f", "new_instance": True, "identities": ids},
-                     {"method": "collect_paths", "pathsname": "ok", "filename": "f", "new_instance": False, "identities": ["m0", "m1"]}],
-            "config": CFG, "inspect": inspect, "snapshot_inputs": True, "meta": {"n": n, "i": i, "line": line, "nrec": nrec, "method": method, "scans": scans, "kind": kind}}
+                     {"method": next_method, "pathsname": "ok", "filename": "f", "new_instance": False, "identities": ["m0", "m1"]}],
+            "config": CFG, "inspect": inspect, "snapshot_inputs": True, "meta": {"n": n, "i": i, "line": line, "nrec": nrec, "method": method, "scans": scans, "kind": kind, "next_method": next_method}}
 
 
 def last_line(scan, nrec):
@@ -115,7 +115,7 @@ def run(ctx):
             scans = [s if s == scans[i] or s == "*" else "*" for s in scans]     # keep members in step in breadth-first runs
         # (the breadth-first methods trim lines elsewhere and do not raise here: the out-of-component abort is for the serial methods)
         kind = "limit" if (line >= 1 and "by_line" not in method and rng.random() < 0.4) else "expr"
-        jobs.append(make_job(jid, n, i, line, nrec, method, scans, kind))
+        jobs.append(make_job(jid, n, i, line, nrec, method, scans, kind, rng.choice(METHODS)))      # the further run on the same instance uses any of the methods
     res = pmap(ctx, groups.run_history, jobs, chunksize=2)
     lits, broken = [], []
     for j, r in zip(jobs, res):
@@ -168,7 +168,7 @@ def run(ctx):
         "evaluations": len(jobs) * 2, "distinct_nontrivial": len({repr(j["meta"]) for j in jobs}),
         "rule": "abort points (member index i of n in 1..3, line 0..nrec-1, nrec in {3,5,6}) x {collect_paths, fast_forward_paths, next_paths, collect_by_line, next_by_line} "
                 "(quick: 260 random points of the 840; thorough: all, each under four random choices of scan windows), random scan windows for the members; abort = 'eq(line_number(), L) -> @x = int(\"zz\")' under validation-mode raise, or (30% of the points with L >= 1) an exception raised outside the match components: collect(\"id\", \"a\") on a record L that lacks the header; then one "
-                "further collect_paths run of another group on the same instance. Non-trivial = every distinct abort point.",
+                "further run (any of the five methods) of another group on the same instance. Non-trivial = every distinct abort point.",
         "samples": [case(0)], "exhaustive": not quick, "abort_points": len(jobs),
         "traces_validated_against_impl": len(idx) - len(agree_bad), "spec_failures": len(spec_bad), "on_last_scanned_line": len(d13),
         "correspondence": f"event model == implementation on {len(idx) - len(agree_bad)}/{len(idx)} aborted runs",
@@ -178,7 +178,7 @@ def run(ctx):
 def replay(ctx, payload):
     c = payload.get("case") or payload.get("disagreeing_case")
     m = c["abort_point"]
-    r = groups.run_history(make_job(0, m["n"], m["i"], m["line"], m["nrec"], m["method"], m["scans"], m.get("kind", "expr")))
+    r = groups.run_history(make_job(0, m["n"], m["i"], m["line"], m["nrec"], m["method"], m["scans"], m.get("kind", "expr"), m.get("next_method", "collect_paths")))
     for o in r["runs"]:
         print(o["exc"], {k: v for k, v in o["inspect"].items() if k != "stores"})
     return 0
